@@ -984,6 +984,7 @@ def build(tier='quick', seed=0):
         # inner types whose own equality is not reflexive
         ('Vec<f64>', '', ['Debug', 'Clone', 'PartialEq', 'PartialOrd', 'AsRef', 'Deref', 'Into', 'IntoIterator'], '|v| v.len() < 9', None),
         ('Option<f32>', '', ['Debug', 'Clone', 'Copy', 'PartialEq', 'PartialOrd', 'AsRef', 'Into'], None, None),
+        ("&'a str", "<'a>", ['Debug', 'Clone', 'Copy', 'PartialEq', 'Eq', 'PartialOrd', 'Ord', 'Hash', 'AsRef', 'Deref', 'Into', 'Display'], '|s| !s.is_empty()', None),
     ]
     if thorough:
         any_inners += [
